@@ -61,7 +61,9 @@ func init() {
 		for _, sp := range []struct {
 			name string
 			bits uint32
-		}{{"NaN", 0x7FC00000}, {"+Inf", 0x7F800000}, {"-1", 0xBF800000}, {"-0", 0x80000000}, {"2", 0x40000000}} {
+		}{{"NaN", 0x7FC00000}, {"+Inf", 0x7F800000}, {"-1", 0xBF800000}, {"-0", 0x80000000}, {"2", 0x40000000},
+			// ... and with an ordinary value: the very first answer of a process is checked like any other
+			{"0.5", 0x3F000000}, {"0.001", 0x3A83126F}, {"0.9999", 0x3F7FF972}, {"1e-30", 0x0DA24260}} {
 			sp := sp
 			ev.RegisterProbe(e.name+" first called with "+sp.name, func() string {
 				var pn bool
@@ -72,10 +74,15 @@ func init() {
 							pn, msg = true, fmt.Sprint(r)
 						}
 					}()
-					e.fn(math.Float32frombits(sp.bits))
+					if k, w := e.point(sp.bits); k != "" {
+						msg = "first call of the process: " + w
+					}
 				}()
 				if pn {
 					return fmt.Sprintf("%s(%s) panicked: %s", e.name, sp.name, msg)
+				}
+				if msg != "" {
+					return msg
 				}
 				for _, b := range []uint32{0x3F000000, 0x3F7FFFFF, 0x3F800000, 0x3A83126F} {
 					var k, w string
